@@ -79,10 +79,21 @@ def r5_20(ctx):
   # the printer decides the mutation body from mutated_type alone?
   pmod = get_module(ctx, PRINTER)
   vs = pmod.func("PrintVisitor.VisitSignature")
-  reads = [n for n in ast.walk(vs) if isinstance(n, ast.Attribute) and n.attr == "mutated_type"]
+  methods = pmod.methods("PrintVisitor")
+  fns, todo = [vs], [vs]
+  while todo:                       # VisitSignature and the helpers it delegates to
+    f = todo.pop()
+    for c in ast.walk(f):
+      if isinstance(c, ast.Call) and isinstance(c.func, ast.Attribute) \
+          and dotted(c.func.value) == "self" and c.func.attr in methods \
+          and methods[c.func.attr] not in fns:
+        fns.append(methods[c.func.attr])
+        todo.append(methods[c.func.attr])
+  reads = [n for f in fns for n in ast.walk(f)
+           if isinstance(n, ast.Attribute) and n.attr == "mutated_type"]
   if not reads:
     raise AnalysisError("PrintVisitor.VisitSignature no longer reads mutated_type")
-  printer_knows = any(_mentions_self_name(t) for n in ast.walk(vs)
+  printer_knows = any(_mentions_self_name(t) for f in fns for n in ast.walk(f)
                       if isinstance(n, (ast.If, ast.IfExp, ast.comprehension))
                       for t in ([n.test] if hasattr(n, "test") else n.ifs)
                       if any(isinstance(a, ast.Attribute) and a.attr == "mutated_type"
